@@ -2,6 +2,7 @@ import TsRsVerif.Model.Export
 import TsRsVerif.Lemmas.AbsLemmas
 import TsRsVerif.Lemmas.SpellingLemmas
 import TsRsVerif.Lemmas.HistoryWorld
+import TsRsVerif.Lemmas.HistoryMulti
 /-!
 # C06 — export results depend only on what was exported, not how or in what order
 
@@ -11,7 +12,8 @@ snapshot violated and the `fix:` commit repaired), nor on *how the directory is 
 spellings that `path::absolute` normalises alike drive the whole depth-first export identically),
 because the registry key is always the normalised path and `absolute` is idempotent.
 Order independence of the file *contents*, on the bytes and for whole histories, is `C06_history_order_independent`
-(a corollary of the refinement theorem `C05_history_canonical`).
+(one file; a corollary of the refinement theorem `C05_history_canonical`) and `C06_directory_order_independent` (any number of
+files, exports interleaved in any way: `Lemmas/HistoryMulti.lean`).
 -/
 namespace TsRs
 open Text Export Path
@@ -68,6 +70,43 @@ theorem C06_history_order_independent (w : World) (path : Str) (h₁ h₂ : List
     ∃ w₁ w₂, runAll path w h₁ = (w₁, true) ∧ runAll path w h₂ = (w₂, true) ∧ w₁.fs = w₂.fs ∧
       ∀ n, (∃ names, regGet w₁.reg (regKey path) = some names ∧ n ∈ names) ↔ (∃ names, regGet w₂.reg (regKey path) = some names ∧ n ∈ names) :=
   history_order_independent w path h₁ h₂ hperm hne hok hnd hndI hp hreg hc
+
+/-- **interleaved exports into several files**: `slots` are the files (normalised path, location), an operation is (file, generated
+text). From a process that has written none of them, every step returns `Ok`; afterwards every file that received exports holds
+exactly the canonical text of ITS exports, every other location is as before, the lock is not poisoned. -/
+theorem C06_interleaved_history (slots : List Slot) (w : World) (ops : List Op) (hs : SlotsOK w.fs slots) (hok : OpsOK slots ops)
+    (hp : w.poisoned = false) (hreg : ∀ s ∈ slots, regGet w.reg (regKey s.1) = none) :
+    ∃ w', runOps slots w ops = (w', true) ∧ w'.poisoned = false ∧
+      (∀ (i : Nat) s, slots[i]? = some s → gensAt i ops ≠ [] → w'.fs.lookup s.2 = some (.file (fileText (canonSt (gensAt i ops))))) ∧
+      (∀ l, (∀ (i : Nat) s, slots[i]? = some s → s.2 = l → gensAt i ops = []) → w'.fs.lookup l = w.fs.lookup l) := by
+  obtain ⟨w', hr, hi⟩ := multi_history slots w ops hs hok hp hreg
+  exact ⟨w', hr, hi.alive, hi.files, hi.untouched⟩
+
+/-- **the directory depends only on WHAT was exported WHERE**: any two interleavings of the same operations over any number of
+files both succeed and end in file systems that agree at every location. -/
+theorem C06_directory_order_independent (slots : List Slot) (w : World) (ops₁ ops₂ : List Op) (hperm : ops₁.Perm ops₂)
+    (hs : SlotsOK w.fs slots) (hok : OpsOK slots ops₁)
+    (hp : w.poisoned = false) (hreg : ∀ s ∈ slots, regGet w.reg (regKey s.1) = none) :
+    ∃ w₁ w₂, runOps slots w ops₁ = (w₁, true) ∧ runOps slots w ops₂ = (w₂, true) ∧
+      w₁.fs.cwd = w₂.fs.cwd ∧ ∀ l, w₁.fs.lookup l = w₂.fs.lookup l :=
+  multi_order_independent slots w ops₁ ops₂ hperm hs hok hp hreg
+
+/-! non-vacuity: two files in a concrete file system, three interleaved exports -/
+def exFs : Fs := { nodes := [(["w".toList], .dir), (["w".toList, "out".toList], .dir)], cwd := ["w".toList] }
+def exSlots : List Slot := [("/w/out/shared.ts".toList, ["w".toList, "out".toList, "shared.ts".toList]), ("/w/out/Other.ts".toList, ["w".toList, "out".toList, "Other.ts".toList])]
+def exA : GenT := ⟨"Alpha".toList, "Alpha".toList, [], "export type Alpha = { a: number, };".toList⟩
+def exB : GenT := ⟨"Beta".toList, "Beta<T>".toList, [("./Other".toList, ["Other".toList])], "export type Beta<T> = { o: Other, t: T, };".toList⟩
+def exO : GenT := ⟨"Other".toList, "Other".toList, [], "export type Other = string;".toList⟩
+
+example : SlotsOK exFs exSlots := by
+  refine ⟨by decide +kernel, by decide +kernel, by decide +kernel, by decide +kernel, ?_, ?_⟩
+  · intro i j a b hi hj h
+    rcases i with _ | _ | i <;> rcases j with _ | _ | j <;> simp [exSlots] at hi hj <;> first | rfl | (subst hi; subst hj; exact absurd h (by decide +kernel))
+  · intro i j a b hi hj h
+    rcases i with _ | _ | i <;> rcases j with _ | _ | j <;> simp [exSlots] at hi hj <;> first | rfl | (subst hi; subst hj; exact absurd h (by decide +kernel))
+#guard (runOps exSlots { fs := exFs, reg := [] } [(0, exB), (1, exO), (0, exA)]).2
+#guard ((runOps exSlots { fs := exFs, reg := [] } [(0, exB), (1, exO), (0, exA)]).1.fs.lookup ["w".toList, "out".toList, "shared.ts".toList])
+  == ((runOps exSlots { fs := exFs, reg := [] } [(0, exA), (0, exB), (1, exO)]).1.fs.lookup ["w".toList, "out".toList, "shared.ts".toList])
 
 /-- before the fix `export()` keyed the registry by the un-normalised path: as `PathBuf`s the two
 spellings of one file are different keys -/
